@@ -232,6 +232,11 @@ func OracleNL(op M, res any, exec func(M) any) []Finding {
 		return out
 	}
 	name := asStr(op["op"])
+	if m, ok := res.(M); ok && m["lookupTwice"] != nil {
+		l := asList(m["lookupTwice"])
+		add("C16", "the same lookup (%s) on the same list returns %s the first time and %s the second: the list is no longer the one the caller built", name, js(l[0]), js(l[1]))
+		return out
+	}
 	var a, b *NLView
 	if v, ok := op["a"]; ok {
 		a = View(v)
